@@ -291,6 +291,8 @@ pub struct Interp {
     pub stale_since_remove: bool,
     /// a visibly finished head bar was dropped (retained) while the screen was stale like that
     pub stale_reap_seen: bool,
+    /// a suspend closure wrote an empty first line while no bar row was on screen (C01 finding F-C01b)
+    pub empty_suspend_line_seen: bool,
 }
 
 /// What happened in one op, for the property-specific checks.
@@ -345,7 +347,7 @@ impl Interp {
             None => ProgressDrawTarget::term_like(vt.boxed()),
         };
         let mp = MultiProgress::with_draw_target(target);
-        Interp { vt, mp: Some(mp), handles: vec![], model: Model::default(), cols, rows, cut_to_height: false, stale_since_remove: false, stale_reap_seen: false }
+        Interp { vt, mp: Some(mp), handles: vec![], model: Model::default(), cols, rows, cut_to_height: false, stale_since_remove: false, stale_reap_seen: false, empty_suspend_line_seen: false }
     }
 
     fn entry_mut(&mut self, tag: usize) -> Option<&mut Entry> {
@@ -592,6 +594,9 @@ impl Interp {
                 out.phase_frames.push((vec![], self.model.log.len()));
             }
             MOp::MpSuspend(lines) | MOp::BarSuspend(_, lines) => {
+                if lines.first().map_or(false, |l| console::measure_text_width(l) == 0) && self.model.frame().iter().all(|l| l.is_empty()) && !self.model.log.is_empty() {
+                    self.empty_suspend_line_seen = true;
+                }
                 let vt = self.vt.clone();
                 let f = || {
                     for l in lines {
@@ -752,8 +757,8 @@ pub fn mop_strategy(cols: usize, with_wait: bool) -> BoxedStrategy<MOp> {
         4 => log.prop_map(MOp::MpPrintln),
         2 => (s(), log2).prop_map(|(i, t)| MOp::BarPrintln(i, t)),
         1 => Just(MOp::MpClear),
-        1 => proptest::collection::vec("[a-z]{1,5}", 0..3).prop_map(MOp::MpSuspend),
-        1 => (s(), proptest::collection::vec("[a-z]{1,5}", 0..3)).prop_map(|(i, l)| MOp::BarSuspend(i, l)),
+        1 => proptest::collection::vec("[a-z]{0,5}", 0..3).prop_map(MOp::MpSuspend),
+        1 => (s(), proptest::collection::vec("[a-z]{0,5}", 0..3)).prop_map(|(i, l)| MOp::BarSuspend(i, l)),
         1 => any::<bool>().prop_map(MOp::SetAlignment),
         1 => (s(), 0u8..12).prop_map(|(i, w)| MOp::SetTabWidth(i, w)),
     ];
@@ -762,4 +767,78 @@ pub fn mop_strategy(cols: usize, with_wait: bool) -> BoxedStrategy<MOp> {
     } else {
         base.boxed()
     }
+}
+
+// ------------------------------------------------------------------------------------------
+// byte decoders for the fuzz targets
+
+pub fn decode_spec(u: &mut FuzzInput, cols: usize, single_line: bool) -> BarSpec {
+    BarSpec {
+        two_lines: !single_line && u.n(3) == 0,
+        len: if u.n(4) == 0 { None } else { Some(1 + u.n(48) as u64) },
+        on_finish: [2u8, 2, 2, 0, 0, 1, 3, 4][u.n(7)],
+        msg: u.short(cols),
+    }
+}
+
+pub fn decode_mop(u: &mut FuzzInput, cols: usize, flavour: u8) -> MOp {
+    // flavour 0: full alphabet, 1: C04 (no println/clear/suspend/remove/positional), 2: C19 (single-line, no suspend)
+    let s = |u: &mut FuzzInput| u.u16();
+    let log = |u: &mut FuzzInput| match u.n(6) {
+        0 => String::new(),
+        1 => "l".repeat(cols + u.n(cols + 1)),
+        2 => format!("{}\n{}", u.short(cols), u.short(cols)),
+        _ => u.short(cols),
+    };
+    loop {
+        let op = match u.n(40) {
+            0..=4 => MOp::Add(decode_spec(u, cols, flavour == 2)),
+            5 => MOp::Insert(u.n(5) as u8, decode_spec(u, cols, flavour == 2)),
+            6 => MOp::InsertFromBack(u.n(5) as u8, decode_spec(u, cols, flavour == 2)),
+            7 => MOp::InsertBefore(s(u), decode_spec(u, cols, flavour == 2)),
+            8 => MOp::InsertAfter(s(u), decode_spec(u, cols, flavour == 2)),
+            9 | 10 => MOp::Remove(s(u)),
+            11..=16 => MOp::Tick(s(u)),
+            17..=19 => MOp::Inc(s(u), 1 + u.n(2) as u64),
+            20..=23 => MOp::SetMessage(s(u), u.short(cols)),
+            24 | 25 => MOp::Finish(s(u)),
+            26 => MOp::FinishWithMessage(s(u), u.short(cols)),
+            27 => MOp::FinishAndClear(s(u)),
+            28 => MOp::Abandon(s(u)),
+            29..=32 => MOp::Drop(s(u)),
+            33..=35 => MOp::MpPrintln(log(u)),
+            36 => MOp::BarPrintln(s(u), log(u)),
+            37 => MOp::MpClear,
+            38 => MOp::MpSuspend((0..u.n(2)).map(|_| u.short(cols)).collect()),
+            39 => MOp::BarSuspend(s(u), (0..u.n(2)).map(|_| u.short(cols)).collect()),
+            _ => MOp::SetAlignment(u.bool()),
+        };
+        let ok = match flavour {
+            1 => !matches!(op, MOp::Remove(_) | MOp::Insert(..) | MOp::InsertFromBack(..) | MOp::MpPrintln(_) | MOp::BarPrintln(..) | MOp::MpClear | MOp::MpSuspend(_) | MOp::BarSuspend(..) | MOp::SetAlignment(_)),
+            2 => !matches!(op, MOp::MpSuspend(_) | MOp::BarSuspend(..) | MOp::SetAlignment(_) | MOp::BarPrintln(..) | MOp::Insert(..) | MOp::InsertFromBack(..) | MOp::InsertBefore(..) | MOp::InsertAfter(..)),
+            _ => true,
+        };
+        if ok || u.empty() {
+            return if ok { op } else { MOp::Tick(0) };
+        }
+    }
+}
+
+pub fn decode_multi(u: &mut FuzzInput, flavour: u8) -> MultiCase {
+    let (rows, cols) = match flavour {
+        2 => (1 + u.n(11) as u8, 1 + u.n(39) as u8),
+        _ => (80, 12 + u.n(28) as u8),
+    };
+    let hz = if flavour == 0 || flavour == 2 || u.n(3) == 0 { None } else { Some([1u8, 20, 255][u.n(2)]) };
+    let step_ms = if hz.is_some() { [0u32, 0, 1, 200][u.n(3)] } else { 2 };
+    let mut ops = vec![];
+    if hz.is_some() {
+        ops.push(MOp::Add(BarSpec { two_lines: false, len: Some(9), on_finish: 0, msg: String::new() }));
+        ops.extend(std::iter::repeat(MOp::Tick(0)).take(22));
+    }
+    while !u.empty() && ops.len() < 60 {
+        ops.push(decode_mop(u, cols as usize, flavour));
+    }
+    let final_drops = (0..8).map(|i| (i as u16).wrapping_mul(8191)).collect();
+    MultiCase { rows, cols, hz, step_ms, ops, final_drops }
 }
